@@ -154,7 +154,10 @@ class Vector(object):
 
     def angle(self, other):
         """Returns the angle (in radians) enclosed by both vectors."""
-        return math.acos((self * other) / (self.length() * other.length()))
+        cos = (self * other) / (self.length() * other.length())
+        # Rounding can push the cosine of (anti-)parallel vectors just outside
+        # [-1, 1] (e.g. 1.0000000000000002), where acos is not defined
+        return math.acos(max(-1.0, min(1.0, cos)))
 
     def normalized(self):
         """Return the normalized version of the vector, that is a vector
